@@ -3,6 +3,7 @@ import world_envelope  # noqa: F401
 import world_chain  # noqa: F401
 import world_deleg  # noqa: F401
 import world_storage  # noqa: F401
+import world_process  # noqa: F401
 
 REAL = ["conda_content_trust/*.py (working tree)", "pyca/cryptography + OpenSSL", "json, codecs, io.TextIOWrapper"]
 ASSUME_CRYPTO = ("ed25519 is unforgeable and a random corruption of a signature, key or header does not yield "
@@ -152,3 +153,39 @@ PLANS["C18"] = {
     "technique": "deterministic simulation with exhaustive per-scenario fault-point enumeration (sys.settrace exception injection, SimFS "
                  "fault plan, callee-seam failures) over seeded scenarios",
 }
+
+
+PROC_REAL = REAL + ["real OS processes: fresh /venv/bin/python interpreters, the installed console script, python -m entry points"]
+PLANS["C07"] = {
+    "level": "exploration",
+    "stages": [{"world": "canon", "runs": {"quick": 160, "thorough": 4000}}],
+    "rule": ("one evaluation = one seeded corpus (120 quick / 400 thorough JSON values: random insertion orders, two-party construction, "
+             "all Unicode planes incl. lone surrogates, special floats, integers up to 4200 digits, envelopes) serialized in-process and "
+             "in 2-4 fresh interpreters under seeded configurations (hash seed x locale x PYTHONUTF8 x PYTHONIOENCODING x TZ x cwd x -O); "
+             "all digests must agree; every value is also compared with the reference serializer, re-parsed, re-serialized, rebuilt "
+             "with a permuted insertion history, and entered in an injectivity table; non-trivial = distinct run digests (each run has "
+             "its own corpus and configurations)"),
+    "assumptions": [ASSUME_SAMPLE, "float digits are taken from float.__repr__ and validated (round trip, pinned spelling); integers "
+                    "bounded by the interpreter's 4300-digit conversion limit, which also bounds what its JSON parser can return"],
+    "components": {"real": PROC_REAL, "stub": ["corpus generator and configuration scheduler (harness)"]},
+    "technique": "deterministic simulation over process configurations: seeded corpus serialized in fresh interpreters under seeded "
+                 "environment configurations, digests compared with each other and with a reference serializer",
+}
+PLANS["C17"] = {
+    "level": "exploration",
+    "stages": [{"world": "cli", "runs": {"quick": 120, "thorough": 6000}}],
+    "rule": ("one evaluation = one simulated history (key ceremonies, compromises, crafted documents, key_mgr issuance) whose documents "
+             "are written to real files in several on-disk formats (plus missing / directory / empty / not-JSON / BOM / binary files) and "
+             "handed to real processes: console script, python -m conda_content_trust, python -m conda_content_trust.cli, under seeded "
+             "environments; oracle = in-process library verdict on the same files; sign-artifacts runs with good and unusable key files; "
+             "non-trivial = both an expected acceptance and an expected rejection were executed"),
+    "assumptions": [ASSUME_SAMPLE, "a standard output that cannot be written at all is out of scope (the property requires a report and a status)",
+                    "gpg-sign / gpg-key-lookup need securesystemslib, which is not installed: their exit status is exercised in the C10 real-GnuPG leg"],
+    "components": {"real": PROC_REAL, "stub": ["document factory (chain world)"]},
+}
+PLANS["C17"]["must_probe"] = {"all": ["entry_script", "entry_pkg", "entry_climod", "cli_expected_accept", "cli_expected_reject"]}
+RULE_CONFIG = ("configuration leg: the verdict vector of a call list built from a small simulated history (raw and OpenPGP-mode envelopes, "
+               "junk entries with non-ASCII text and lone surrogates, a root rotation, a key_mgr delegation, the shipped signed fixtures) is "
+               "evaluated in-process and in fresh interpreters under pre-import sets x stdout encodings x hash seeds x cwd x -O")
+PLANS["C02"]["stages"].append({"world": "config", "runs": {"quick": 24, "thorough": 800}})
+PLANS["C02"]["rule"] += "; " + RULE_CONFIG
